@@ -14,6 +14,9 @@ BEGIN_G, BEGIN_O, END_G, END_O, END = "BEGIN_G", "BEGIN_O", "END_G", \
     "END_O", "END"
 EQ, COMMA, LP, RP, LB, RB, SEMI, UNITS, PARTIAL = "=", ",", "(", ")", "{", \
     "}", ";", "UNITS", "PARTIAL"
+# a units expression with a units delimiter inside it, e.g. "<m<s>": what an
+# unterminated "<km" followed by a later "<m>" lexes to
+BADUNITS = "BADUNITS"
 
 KEYWORDS = {"end", "group", "object", "begin_group", "begin_object",
             "end_group", "end_object", "null", "true", "false", "inf",
@@ -267,7 +270,7 @@ class Style:
     def __init__(self, rng, config):
         self.rng = rng
         self.config = config
-        self.begin_prefix = (config != "ISIS") and rng.random() < 0.4
+        self.begin_prefix = rng.random() < (0.4 if config != "ISIS" else 0.1)
         self.kwcase = rng.choice(["upper", "upper", "lower", "title"])
         self.end_name = rng.random() < 0.5
         self.semis = rng.random() < 0.35
